@@ -807,6 +807,7 @@ func runC09(c *Ctx) {
 	// RenameRepo iterates ListBundlesApply / ListLabelsApply: a dropped listing or apply error lets it delete the old repo
 	checkListApplySiblings(c, "rename.listing-errors")
 	checkGenericErrorDiscipline(c, "pkg/core")
+	checkDeleteRepoRemovesEveryLabel(c, "delete-keys.every-label")
 }
 
 // ---------------------------------------------------------------------------------------------------
